@@ -90,7 +90,9 @@ def pathParamsOK {σ} (ops : List OpIn) (d : Doc σ) : Bool :=
     | none => (specRouteParams op.path).isEmpty || !([s "get", s "put", s "post", s "delete", s "options", s "head", s "patch"].contains (specMember op.method))
     | some item =>
       match item.lookup (specMember op.method) with
-      | none => true          -- the method has no member in a path item (custom methods)
+      | none =>               -- no member: fine for a method that has none (TRACE, custom methods) or a route without
+                              -- parameters; otherwise the route's parameters are documented nowhere
+        (specRouteParams op.path).isEmpty || !([s "get", s "put", s "post", s "delete", s "options", s "head", s "patch"].contains (specMember op.method))
       | some o => opPathParamsOK (specPathKey op.path) o op.path
 
 /-! ## operation ids, names -/
